@@ -154,6 +154,14 @@ class SOpaque:
         return f"<opaque {self.what}>"
 
 
+class SUndef:
+    """the value of a spec sub-term that Python would not evaluate (it would raise): absorbs every operation,
+    its truth value is an unconstrained Bool -- proves nothing, assumes nothing"""
+
+    def __repr__(self):
+        return "<undefined>"
+
+
 class SExcClass:
     def __init__(self, name, mro):
         self.name = name
